@@ -159,6 +159,9 @@ func checkC11(c *Ctx, r *Report) {
 					}
 				}
 			}
+			// writes and the close may also be made by a same-package function the file is handed to (ip_i1.go)
+			ipi := newIPI1(c, pkg)
+			handed := ipi.fileCalls(fn, file)
 			var verdict, why string
 			for _, rn := range callsTo(fn, false, "os.Rename") {
 				src, dst := rn.Common().Args[0], rn.Common().Args[1]
@@ -181,11 +184,17 @@ func checkC11(c *Ctx, r *Report) {
 					continue
 				}
 				okAll := true
+				nWrites := len(writes)
 				if file != nil {
-					if len(closes) == 0 {
+					hOK, hClosed, hWrites, hWhy := ipi.fileCallsBefore(handed, rn)
+					nWrites += hWrites
+					if len(closes) == 0 && !hClosed {
 						okAll, why = false, "the file is not closed before the rename"
 					}
-					closedOK := false
+					if !hOK {
+						okAll, why = false, hWhy
+					}
+					closedOK := hOK && hClosed
 					for _, w := range append(append([]ssa.CallInstruction{}, writes...), closes...) {
 						if !instrReaches(w, rn) {
 							continue // on a path that never gets to the rename (error clean-up)
@@ -222,7 +231,7 @@ func checkC11(c *Ctx, r *Report) {
 				}
 				if okAll {
 					_, dstIsParam := dst.(*ssa.Parameter)
-					verdict = fmt.Sprintf("written under a temporary name and renamed to the final name at %s after open, %d write(s) and close succeeded", c.pos(rn.Pos()), len(writes))
+					verdict = fmt.Sprintf("written under a temporary name and renamed to the final name at %s after open, %d write(s) and close succeeded", c.pos(rn.Pos()), nWrites)
 					if dstIsParam {
 						atomicHelpers[fn] = true
 					}
@@ -348,8 +357,10 @@ func moveRule(c *Ctx, r *Report, rule string) {
 			}
 		}
 	}
+	// the names may be built by same-package helpers: dependence with parameters bound per call (ip_i1.go)
+	ipi := newIPI1(c, "mailbox")
 	hasConst := func(v ssa.Value, s string) bool {
-		return dependsOn(v, func(x ssa.Value) bool { cs, ok := constString(x); return ok && cs == s })
+		return ipi.dependsOn(v, nil, func(x ssa.Value) bool { cs, ok := constString(x); return ok && cs == s })
 	}
 	switch {
 	case len(muts) != 1 || callName(muts[0].Common()) != "os.Rename":
@@ -357,7 +368,9 @@ func moveRule(c *Ctx, r *Report, rule string) {
 	default:
 		a := muts[0].Common().Args
 		mid := fn.Params[1]
-		dep := func(v ssa.Value) bool { return dependsOn(v, func(x ssa.Value) bool { return x == ssa.Value(mid) }) }
+		dep := func(v ssa.Value) bool {
+			return ipi.dependsOn(v, nil, func(x ssa.Value) bool { return x == ssa.Value(mid) })
+		}
 		if hasConst(a[0], "/out/") && hasConst(a[1], "/sent/") && dep(a[0]) && dep(a[1]) && hasConst(a[0], ".b2f") && hasConst(a[1], ".b2f") {
 			o.OK("os.Rename(out/<MID>.b2f, sent/<MID>.b2f)")
 		} else {
@@ -380,6 +393,12 @@ func checkC10(c *Ctx, r *Report) {
 		for _, ci := range callsTo(fn, false, "fbb.Header.Set", "fbb.Header.Get", "fbb.Header.Del") {
 			if s, ok := constString(ci.Common().Args[1]); ok && strings.HasPrefix(s, "X-") {
 				private[s] = true
+			}
+			// keys taken from a constant table (ip_h3.go)
+			for _, s := range c.h3TableKeys(ci.Common().Args[1]) {
+				if strings.HasPrefix(s, "X-") {
+					private[s] = true
+				}
 			}
 		}
 	}
@@ -441,15 +460,9 @@ func checkC10(c *Ctx, r *Report) {
 			site := fmt.Sprintf("append #%d", i+1)
 			for _, k := range keys {
 				o := r.Add("C10-private", where, site+": Header.Del("+k+")", c.pos(ap.Pos()))
-				found := false
-				for _, del := range callsTo(fn, false, "fbb.Header.Del") {
-					if s, _ := constString(del.Common().Args[1]); s != k {
-						continue
-					}
-					if msg != nil && pathOf(del.Common().Args[0]) == pathOf(msg)+".Header" && instrDominates(del, ap) {
-						found = true
-					}
-				}
+				// the deletion may be written out, made by a loop over a constant table of keys, or
+				// sit in a same-package helper that is given the message (h3DelBefore, ip_h3.go)
+				found := msg != nil && ip.h3DelBefore(ap, msg, h3SubjMsg, k, 0)
 				if found {
 					o.OK("the header is deleted from this message on every path to the append")
 				} else {
@@ -620,29 +633,13 @@ func checkC10(c *Ctx, r *Report) {
 		}
 		okLen, okCmp := false, false
 		if recv != nil {
-			for _, ret := range returnsOf(fn) {
-				v := resOf(ret, 0)
-				if b, isC := constBool(v); isC && !b {
-					continue
-				}
-				// a possibly-true return must lie on the len(receivers) == 1 edge
-				for _, cd := range condsAt(ret.Block()) {
-					bo, ok := cd.V.(*ssa.BinOp)
-					if !ok {
-						continue
-					}
-					k, isC := constInt(bo.Y)
-					lc, isLen := bo.X.(*ssa.Call)
-					if isC && k == 1 && isLen && callName(&lc.Call) == "builtin.len" && lc.Call.Args[0] == ssa.Value(recv) && ((bo.Op == token.EQL) == cd.Truth) && (bo.Op == token.EQL || bo.Op == token.NEQ) {
-						okLen = true
-					}
-				}
-				if dependsOn(v, func(x ssa.Value) bool {
-					ia, ok := x.(*ssa.IndexAddr)
-					return ok && ia.X == ssa.Value(recv)
-				}) && dependsOn(v, func(x ssa.Value) bool { return x == ssa.Value(fn.Params[1]) }) {
-					okCmp = true
-				}
+			// every way the result can be true (an early `return false` and a short-circuit `&&` are the
+			// same thing here) establishes len(receivers) == 1 and compares that receiver with the
+			// address (ip_i1.go)
+			var nWays int
+			okLen, okCmp, nWays = newIPI1(c, "fbb").soleWays(fn, recv, fn.Params[1])
+			if nWays == 0 {
+				okLen, okCmp = false, false // never true: not the sole-receiver test
 			}
 		}
 		switch {
@@ -1067,7 +1064,8 @@ func checkC12(c *Ctx, r *Report) {
 			}
 			nLocal++
 			o := r.Add("C12-localid", fnName(fn), "sink "+name+" "+c.exprAt(fn, ci.Pos()), c.pos(ci.Pos()))
-			if name == "os.Rename" && symmetricJoins(ci.Common().Args[0], ci.Common().Args[1]) {
+			// the two names may be built by a pure path helper of the package (ip_i1.go)
+			if name == "os.Rename" && (symmetricJoins(ci.Common().Args[0], ci.Common().Args[1]) || newIPI1(c, pkgRel(fn)).symmetricNames(ci.Common().Args[0], ci.Common().Args[1])) {
 				o.OK("rename between Join(base, d1, X) and Join(base, d2, X) with constant single-component d1, d2: inside the mailbox, or the same path twice")
 			} else {
 				o.Bad("a path operand derives from the identifier given to the handler (%s) without a confinement check, and the call is not a rename between two symmetric names: an identifier with dot-dot segments (the Mid header of a file placed in the outbox) moves or removes a file outside the mailbox", bad)
